@@ -76,7 +76,7 @@ Definition over_b : Parser.etree :=
   plain nAUTOSAR [plain nPKGS [named nPKG "p" [plain nELEMENTS [named nUNIT "s" []]]; named nPKG "new" []]].
 Example overlap_rejected : results [("a", conf_a); ("b", over_b)] = Some [OK 0; ER OverlappingDataError].
 Proof. vm_compute. reflexivity. Qed.
-(* ... and nothing of the rejected file stays (fix 9d6ce2a) *)
+(* ... and nothing of the rejected file stays (fix b692965) *)
 Example overlap_no_trace : final [("a", conf_a); ("b", over_b)] = final [("a", conf_a)].
 Proof. vm_compute. reflexivity. Qed.
 
